@@ -61,6 +61,7 @@ class CoreMixin:
         self.spec_mode = 0
         self.polarity = 0
         self.goal_mode = False
+        self.in_old = 0
         self.skolems = []
         self.old_state = None
         self.path_counter = 0
@@ -169,6 +170,14 @@ class CoreMixin:
             out.append(smt.And(smt.Le(smt.Int(0), v.ts[1]), smt.Le(v.ts[1], smt.Int(2))))
         if k == "ref":
             out.append(smt.Gt(v.ts[0], smt.Int(0)))
+            out.append(self.known_ref_fact(v.ts[0]))
+        if k == "list" and v.ty.args[0].kind == "ref":
+            iv = T("i!al", INT)
+            q = smt.Forall([("i!al", INT)], smt.Implies(smt.And(smt.Le(smt.Int(0), iv), smt.Lt(iv, smt.Len(v.ts[0]))),
+                                                         self.known_ref_fact(smt.At(v.ts[0], iv))))
+            if q.s != "true":
+                self.ctx.qreg[q.s] = ("i!al", q.s[len("(forall ((i!al Int)) "):-1])
+            out.append(q)
         if k == "opt":
             inner = opt_inner(v)
             out += [smt.Implies(smt.Not(v.ts[0]), t) for t in self.wf(inner)]
@@ -178,9 +187,16 @@ class CoreMixin:
         return out
 
     # -- coercion ----------------------------------------------------------
+    def same_shape(self, a, b):
+        if a.kind != b.kind or len(a.args) != len(b.args):
+            return False
+        return all(self.same_shape(x, y) for x, y in zip(a.args, b.args))
+
     def coerce(self, v, ty, st, why=""):
         if v.ty == ty:
             return v
+        if self.same_shape(v.ty, ty):
+            return SV(ty, v.ts, v.py)
         a, b = v.ty.kind, ty.kind
         if b == "any":
             return SV(TANY, [self.to_u(v)])
@@ -207,7 +223,16 @@ class CoreMixin:
             # implicit unwrap: None here would be a TypeError/AttributeError
             self.require_noexc(st, smt.Not(v.ts[0]), "TypeError", "none_used_as_%s%s" % (b, why))
             return self.coerce(opt_inner(v), ty, st, why)
+        if a == "dict" and b == "dict" and v.ty.args[0].kind == "unknown":
+            return self.empty_dict(ty)
         if a == "list" and b == "list":
+            if v.ty.args[0].kind == "opt" and (v.ty.args[0].args[0] == ty.args[0] or (v.ty.args[0].args[0].kind == "ref" and ty.args[0].kind == "ref")):
+                # list of Optional[T] used as list of T: no element may be None
+                n = smt.Len(v.ts[0])
+                iv = T("i!nn", INT)
+                self.require_noexc(st, smt.Forall([("i!nn", INT)], smt.Implies(smt.And(smt.Le(smt.Int(0), iv), smt.Lt(iv, n)), smt.Not(smt.At(v.ts[0], iv)))),
+                                   "TypeError", "none_in_list")
+                return SV(ty, v.ts[1:])
             if v.ty.args[0].kind == "unknown":
                 return SV(ty, [smt.EmptySeq(smt.elem_sort(s)) for s in flatten(ty)])
             if v.ty.args[0].kind == "str" and ty.args[0].kind == "tstr":
@@ -221,6 +246,13 @@ class CoreMixin:
                 return SV(ty, [v.ts[0]])
             if v.ty.args[0].kind == "ref" and ty.args[0].kind == "ref":
                 return SV(ty, v.ts)
+            if v.ty.args[0].kind == "ref" and ty.args[0].kind == "opt" and ty.args[0].args[0].kind == "ref":
+                n = smt.Len(v.ts[0])
+                flags = self.ctx.fresh("nn_flags", smt.seq(BOOL))
+                iv = T("i!nf", INT)
+                st.assume(smt.Eq(smt.Len(flags), n))
+                st.assume(smt.Forall([("i!nf", INT)], smt.Implies(smt.And(smt.Le(smt.Int(0), iv), smt.Lt(iv, n)), smt.Not(smt.At(flags, iv)))))
+                return SV(ty, [flags] + v.ts)
         if a == "tuple" and b == "tuple" and len(v.ty.args) == len(ty.args):
             return mk_tuple([self.coerce(x, t, st, why) for x, t in zip(tuple_items(v), ty.args)])
         if a == "any":
@@ -238,6 +270,12 @@ class CoreMixin:
     def join_types(self, a, b):
         if a == b:
             return a
+        if a.kind == "ref" and b.kind == "ref":
+            return Ref()
+        if a.kind == "opt" and b.kind == "ref" and a.args[0].kind == "ref":
+            return Opt(Ref())
+        if b.kind == "opt" and a.kind == "ref" and b.args[0].kind == "ref":
+            return Opt(Ref())
         if a.kind == "none":
             return Opt(b)
         if b.kind == "none":
@@ -338,6 +376,11 @@ class CoreMixin:
     def heap_read(self, st, ref_t, f):
         h = self.heap_arr(st, f)
         v = SV(h.ty, [smt.Select(a, ref_t) for a in h.ts])
+        if not self.spec_mode:
+            if h.ty.kind == "ref":
+                st.assume(self.known_ref_fact(v.ts[0]))
+            elif h.ty.kind == "opt" and h.ty.args[0].kind == "ref":
+                st.assume(smt.Or(v.ts[0], self.known_ref_fact(v.ts[1])))
         return v
 
     def heap_write(self, st, ref_t, f, val):
@@ -353,12 +396,26 @@ class CoreMixin:
             fresh = self.fresh_sv(h.ty, "hv_%s" % f)
             st.heap[f] = SV(h.ty, [smt.Store(a, at, x) for a, x in zip(h.ts, fresh.ts)])
 
-    def alloc(self, st, clsname):
-        r = self.ctx.fresh("new_%s" % clsname, INT)
+    def alloc0(self, ref_t):
+        """ref_t denoted an allocated object when the function was entered"""
+        a = self.ctx.const("Alloc0", smt.arr(INT, BOOL))
+        return smt.Select(a, ref_t)
+
+    def new_ref(self, st, base):
+        r = self.ctx.fresh(base, INT)
         st.assume(smt.Gt(r, smt.Int(0)))
-        for other in self.known_refs(st):
+        st.assume(smt.Not(self.alloc0(r)))
+        for other in self.allocated:
             st.assume(smt.Not(smt.Eq(r, other)))
         self.allocated.append(r)
+        return r
+
+    def known_ref_fact(self, v):
+        """a reference found in the heap / ghost state was allocated at entry or is one of the new objects"""
+        return smt.Or(self.alloc0(v), *[smt.Eq(v, n) for n in self.allocated])
+
+    def alloc(self, st, clsname):
+        r = self.new_ref(st, "new_%s" % clsname)
         st.assume(smt.Eq(self.typeof(r), self.class_id(clsname)))
         return SV(Ref(clsname), [r])
 
